@@ -33,7 +33,8 @@ replication counts), plus families where state carried over would show: delayed 
 bitmap with different counts and bitmaps per subset (F4), bitmap reuse 236000/237000, 235000 / 237255,
 203YYY defined in one subset only, 201/202/207/208 left open at the end, 204 left open, 221 count left
 open, 206 pending at the end, 203 definition left open, QA-info status pending, templates ending inside
-a bitmap definition, an associated-field / statistics meaning defined in one subset only.
+a bitmap definition, an associated-field / statistics meaning defined in one subset only, marker operators
+processed while 201 / 202 / 207 / 208 is in force (`marker-under-*`; bitmaps differ per subset).
 Plus the layout-varying bitmap templates of harness/c06gen.py (`layout`): several delayed replications of
 DIFFERENT elements, nested replication, 205YYY / 206YYY / 204YYY items in front of 1..3 bitmap constructs
 (222000 and the marker operators, 236000 / 237000 / 237255 / 235000 chains), with per-subset factors that
@@ -306,6 +307,68 @@ class Families(object):
             raise AssertionError(fam)
         c = P.Case([ids], [], n, False, rng.choice([4, 4, 3]), idx)
         c.note = fam
+        return c, fps
+
+
+class MarkerOpGen(object):
+    """marker operators (22X255 / 232255) processed while 201 / 202 / 207 / 208 is IN FORCE, with bitmaps that differ per
+    subset: the compiled path re-creates the operator registers for every marker statement (`state_properties`), the
+    interpreted path carries them in the state; both have to start every subset afresh"""
+
+    def __init__(self, rng):
+        self.rng = rng
+        self.tg = C.TemplateGen(rng, level=2)
+
+    def make(self, idx):
+        rng, tg = self.rng, self.tg
+        op = rng.choice([201, 201, 202, 207, 208, '201+202'])
+        k = rng.randint(1, 3)
+        if op == 208:
+            els = [rng.choice(tg.string) for _ in range(k)]
+            opens, closes = [208000 + rng.randint(1, 12)], [208000]
+        else:
+            els = [rng.choice(tg.numeric) for _ in range(k)]
+            if op == 201:
+                opens, closes = [201000 + rng.choice([129, 130, 126, 135])], [201000]
+            elif op == 202:
+                opens, closes = [202000 + rng.choice([129, 130, 127])], [202000]
+            elif op == 207:
+                opens, closes = [207000 + rng.randint(1, 3)], [207000]
+            else:
+                opens, closes = [201000 + rng.choice([129, 130]), 202000 + rng.choice([129, 127])], [202000, 201000]
+        m = rng.choice([223, 224, 225, 232]) if op != 208 else rng.choice([223, 232])
+        lead = [tg.element_plain()[0] for _ in range(rng.randint(0, 2))]
+        if rng.random() < 0.5:
+            ids = lead + opens + els          # the elements are under the operator as well
+        else:
+            ids = lead + els + opens          # only the markers are
+        n = rng.randint(2, 4)
+        fps = [dict() for _ in range(n)]
+        mean = {224: [8023], 225: [8024]}.get(m, [])
+        if op in (201, 208):
+            # bitmap length and number of markers by delayed replication: both differ per subset
+            ids += [m * 1000, 101000, 31002, 31031] + mean + [101000, 31002, m * 1000 + 255]
+            for f in fps:
+                nb = rng.randint(1, k + len(lead))
+                bits = [rng.randint(0, 1) for _ in range(nb)]
+                f[31002] = [nb, bits.count(0)]
+                f[31031] = bits
+        else:
+            # a scale change in force would apply to a delayed replication factor too (the count becomes a float and is
+            # refused): fixed replication, the same number of zero bits in other positions per subset
+            nb = rng.randint(1, k + len(lead))
+            z = rng.randint(1, nb)
+            ids += [m * 1000, 101000 + nb, 31031] + mean + [101000 + z, m * 1000 + 255]
+            for f in fps:
+                bits = [0] * z + [1] * (nb - z)
+                rng.shuffle(bits)
+                f[31031] = bits
+        if rng.random() < 0.6:
+            ids += closes
+        if rng.random() < 0.5:
+            ids += [rng.choice(tg.numeric)]
+        c = P.Case([ids], [], n, False, rng.choice([4, 4, 3]), idx)
+        c.note = 'marker-under-%s' % op
         return c, fps
 
 
@@ -730,7 +793,7 @@ def process(ctx, drv, treq, cases, rng, tag):
                  nontrivial=(c.n >= 2 and info.get('dec') == 'ok'), sample=len(ctx.samples) < 4)
         ctx.count(tag)
         ctx.count('subsets-%d' % c.n)
-        if tag == 'family':
+        if tag in ('family', 'marker-op'):
             ctx.count('family:' + c.note.split(' ')[0])
         if tag == 'layout':
             for tok in c.note.split(' ')[1:]:
@@ -848,6 +911,13 @@ def run(ctx):
         cases = gen_values(drv, treq, pairs, lrng)
         ctx.count('values-not-generated', len(pairs) - len(cases))
         process(ctx, drv, treq, cases, lrng, 'layout')
+    # marker operators under an operator in force (own random stream)
+    mrng = ctx.rng('marker-op')
+    mg = MarkerOpGen(mrng)
+    pairs = [mg.make(i) for i in range(60 if quick else 1500)]
+    cases = gen_values(drv, treq, pairs, mrng)
+    ctx.count('values-not-generated', len(pairs) - len(cases))
+    process(ctx, drv, treq, cases, mrng, 'marker-op')
 
 
 def replay(ctx, path):
